@@ -25,6 +25,8 @@ pub enum Call {
     Append(Vec<u8>),
     Batch(Vec<Vec<u8>>),
     Get(u64),
+    /// `get` of the last block that this task's latest `info` reported (resolved when it is called)
+    GetTail,
     Has(u64),
     Info,
     MkProof(u64, bool),
@@ -37,6 +39,7 @@ fn call_json(c: &Call) -> Value {
         Call::Append(b) => json!({"o":"append","runs":runs_of(&[b.clone()])}),
         Call::Batch(bs) => json!({"o":"append","runs":runs_of(bs)}),
         Call::Get(i) => json!({"o":"get","i":i,"bi":""}),
+        Call::GetTail => json!({"o":"get","i":0,"bi":""}),
         Call::Has(i) => json!({"o":"has","i":i}),
         Call::Info => json!({"o":"info"}),
         Call::MkProof(i, up) => json!({"o":"mkproof","blk":i,"hasup":up}),
@@ -60,6 +63,7 @@ async fn do_call(core: &SharedCore, c: &Call) -> Value {
             Ok(None) => json!({"t":"none"}),
             Err(e) => json!({"t":"err","msg":format!("{e}").chars().take(120).collect::<String>()}),
         },
+        Call::GetTail => unreachable!(),
         Call::Has(i) => json!({"t":"bool","v":core.has(*i).await}),
         Call::Info => {
             let i = core.info().await;
@@ -141,9 +145,17 @@ fn run_once(setup: &Setup, forced: &[(usize, usize)], starve: bool) -> RunOut {
         let calls = calls.clone();
         let log = log.clone();
         futs.push(Some(Box::pin(async move {
+            let mut last_len = 0u64;
             for c in calls {
+                let c = match c {
+                    Call::GetTail => Call::Get(last_len.saturating_sub(1)),
+                    c => c,
+                };
                 log.borrow_mut().push(json!({"e":"inv","t":t,"c":"s","op":call_json(&c)}));
                 let r = do_call(&core, &c).await;
+                if r["t"] == "info" {
+                    last_len = r["len"].as_u64().unwrap_or(0);
+                }
                 log.borrow_mut().push(json!({"e":"res","t":t,"ret":r}));
             }
         })));
@@ -284,6 +296,33 @@ fn gen_batch_vs_append(rng: &mut StdRng, ntasks: usize) -> Setup {
     Setup { writer: true, pre_blocks: pre, tasks, base: None }
 }
 
+/// Appenders that append one block after the other (so that header flushes fall due: the first
+/// mutating call of the instance and every fourth after it) while a reader keeps asking for the
+/// newest block `info` has just reported: whatever `info` shows must be readable in full.
+fn gen_tail_reader(rng: &mut StdRng, ntasks: usize) -> Setup {
+    let pre: Vec<Vec<u8>> = (0..rng.gen_range(0..2)).map(|_| small_block(rng)).collect();
+    let appenders = ntasks.max(3) - 1;
+    let mut tasks = vec![];
+    let mut tag = 0u8;
+    for _ in 0..appenders {
+        let n = rng.gen_range(3..=5);
+        tasks.push((0..n).map(|_| { tag += 1; Call::Append(vec![tag; 1 + (tag % 3) as usize]) }).collect());
+    }
+    let mut calls = vec![];
+    for _ in 0..rng.gen_range(4..=7) {
+        calls.push(Call::Info);
+        calls.push(match rng.gen_range(0..6) {
+            0 => Call::MkProof(0, true),
+            _ => Call::GetTail,
+        });
+    }
+    if pre.is_empty() {
+        calls.retain(|c| !matches!(c, Call::MkProof(..)));
+    }
+    tasks.push(calls);
+    Setup { writer: true, pre_blocks: pre, tasks, base: None }
+}
+
 /// A replica shared by several tasks.  The replica has synced part of the log before it is
 /// shared; the writer has grown since.  Each applier task applies a proof (block + upgrade)
 /// that was requested in that common base state, so the proofs are valid in any order; a reader
@@ -335,6 +374,7 @@ pub fn run(args: &[String]) {
     let ntasks_max: usize = get("--tasks", "2").parse().unwrap();
     let ncalls: usize = get("--calls", "2").parse().unwrap();
     let kind = get("--kind", "all");
+    let nrandom: usize = get("--random", "0").parse().unwrap();
     let only: Option<usize> = args.iter().position(|a| a == "--only").and_then(|i| args.get(i + 1).and_then(|v| v.parse().ok()));
     let rec = Rec::new(&out, 60);
     for r in 0..runs {
@@ -346,15 +386,32 @@ pub fn run(args: &[String]) {
         let setup = match (kind.as_str(), r % 4) {
             ("replica", _) | ("all", 2) => gen_replica_setup(&mut rng, ntasks),
             ("batch", _) | ("all", 3) => gen_batch_vs_append(&mut rng, ntasks),
+            ("tail", _) => gen_tail_reader(&mut rng, ntasks),
             _ => gen_writer_setup(&mut rng, ntasks, ncalls),
         };
         // baseline run to learn the number of steps, then forced switches at every position
         let base = run_once(&setup, &[], false);
+        let ntasks = setup.tasks.len();
         let mut schedules: Vec<Vec<(usize, usize)>> = vec![vec![]];
         for s in 0..base.steps {
             for t in 0..ntasks {
                 schedules.push(vec![(s, t)]);
             }
+        }
+        // a long setup has more single switches than the budget: a seeded subset, not a prefix
+        while schedules.len() > max_sched.max(1) {
+            let i = rng.gen_range(1..schedules.len());
+            schedules.swap_remove(i);
+        }
+        // schedules with many forced switches at random positions
+        let mut many: Vec<Vec<(usize, usize)>> = vec![];
+        for _ in 0..nrandom {
+            let mut sch: Vec<(usize, usize)> = (0..rng.gen_range(3..=10))
+                .map(|_| (rng.gen_range(0..base.steps + 4), rng.gen_range(0..ntasks)))
+                .collect();
+            sch.sort();
+            sch.dedup_by_key(|x| x.0);
+            many.push(sch);
         }
         if k >= 2 {
             let mut pairs = vec![];
@@ -377,6 +434,7 @@ pub fn run(args: &[String]) {
             schedules.extend(pairs);
         }
         schedules.truncate(max_sched.max(1));
+        schedules.extend(many);
         let mut seen = std::collections::HashSet::new();
         // every schedule with <= 1 forced switch also with starved waiters (fair hand-over of the
         // mutex); schedules with two forced switches alternate between the two modes
@@ -402,7 +460,7 @@ pub fn run(args: &[String]) {
             }
             rec.count("distinct_histories", 1);
             rec.emit(json!({"e":"reset","gen":{"drv":"shared","args":format!(
-                "shared --seed {seed} --runs {runs} --preemptions {k} --max-schedules {max_sched} --tasks {ntasks_max} --calls {ncalls} --kind {kind} --only {r}")},
+                "shared --seed {seed} --runs {runs} --preemptions {k} --max-schedules {max_sched} --tasks {ntasks_max} --calls {ncalls} --kind {kind} --random {nrandom} --only {r}")},
                 "schedule": sch.iter().map(|(a, b)| json!([a, b])).collect::<Vec<_>>(), "sched_no": si}));
             for e in o.events {
                 rec.emit(e);
